@@ -605,11 +605,109 @@ func gen(r *Rand, col *Collector) Input {
 	if r.Chance(1, 10) {
 		in.FallbackFee = g.fee()
 	}
+	// the history on one service instance: other documents a refresh may serve, and the operations
+	in.MoreDocs = g.moreDocs(doc, legacy)
+	in.History = genHistory(r, col, len(in.Validators), len(in.MoreDocs))
+	g.tags["history"] = true
 	for t := range g.tags {
 		in.Tags = append(in.Tags, t)
 	}
 	sortStrings(in.Tags)
 	return in
+}
+
+// moreDocs draws one or two documents a later refresh of the history serves: mostly small ones
+// (they are printed as trees too), one in three a variant of the document itself (an entry removed,
+// the entries reversed: the same validator falls to another entry), one in four a full document of
+// either format over the same keys, addresses and relays, and now and then one that is refused.
+func (g *gctx) moreDocs(doc map[string]any, legacy bool) []string {
+	r := g.r
+	var out []string
+	n := r.Range(1, 2)
+	for i := 0; i < n; i++ {
+		var d any
+		kind := ""
+		switch k := r.Intn(12); {
+		case k < 1:
+			d, kind = map[string]any{"version": 2}, "empty-v2"
+		case k < 3:
+			m := map[string]any{"version": 2, "fee_recipient": g.fee()}
+			if r.Bool() {
+				m["relays"] = map[string]any{g.relays[r.Intn(3)]: map[string]any{}}
+			}
+			d, kind = m, "top-level-only"
+		case k < 7:
+			// the document itself with its proposer entries reversed, or without its first entry
+			m := map[string]any{}
+			for key, val := range doc {
+				m[key] = val
+			}
+			ps, _ := doc["proposers"].([]any)
+			if len(ps) > 0 {
+				if r.Bool() {
+					rev := make([]any, len(ps))
+					for j, p := range ps {
+						rev[len(ps)-1-j] = p
+					}
+					m["proposers"] = rev
+					kind = "entries-reversed"
+				} else {
+					m["proposers"] = append([]any{}, ps[1:]...)
+					kind = "first-entry-removed"
+				}
+			} else if pcs, ok := doc["proposer_config"].(map[string]any); ok && len(pcs) > 0 {
+				// legacy: the default and an own entry change places
+				pm := map[string]any{}
+				for key, val := range pcs {
+					pm[key] = val
+				}
+				keys := make([]string, 0, len(pm))
+				for key := range pm {
+					keys = append(keys, key)
+				}
+				sortStrings(keys)
+				key := keys[r.Intn(len(keys))]
+				if pm[key] != nil && doc["default_config"] != nil {
+					m["default_config"], pm[key] = pm[key], doc["default_config"]
+				}
+				m["proposer_config"] = pm
+				kind = "v1-default-swapped"
+			} else {
+				m["fee_recipient"] = g.fee()
+				if legacy {
+					m = map[string]any{"default_config": g.genProposer1()}
+				}
+				kind = "other-top-fee"
+			}
+			d = m
+		case k < 10:
+			// a full document of either format (tags and lattice counts belong to the first document)
+			saved := g.tags
+			g.tags = map[string]bool{}
+			if r.Chance(1, 4) {
+				d, kind = g.genV1(), "full-v1"
+			} else {
+				d, kind = g.genV2(), "full-v2"
+			}
+			g.tags = saved
+		default:
+			d = []any{
+				map[string]any{"version": 3},
+				map[string]any{"version": 2, "gas_limit": "x"},
+				map[string]any{"version": 2, "proposers": []any{map[string]any{"proposer": "Wallet ("}}},
+				map[string]any{"proposer_config": map[string]any{}},
+				"not a configuration",
+			}[r.Intn(5)]
+			kind = "refused"
+		}
+		text, err := json.Marshal(d)
+		if err != nil {
+			panic(err)
+		}
+		out = append(out, string(text))
+		g.col.Count("history-document:" + kind)
+	}
+	return out
 }
 
 func sortStrings(s []string) {
